@@ -75,20 +75,35 @@ def execute(ops, maxheap, follow=None):
     Returns (trace, diverged) - `diverged` when the heap legally chose another minimum than the
     generated behaviour did (the sibling behaviour covers that choice)."""
     from graphtage.fibonacci import ReversedComparator
-    heap = _heap(maxheap)
-    nodes = {}
-    live = set()
-    trace = []
-    next_id = 1
-    diverged = False
+    from harness.watchdog import patient
+    state = {}
+
+    def attempt():
+        state.clear()
+        state.update(heap=_heap(maxheap), nodes={}, live=set(), trace=[], next_id=1, diverged=False)
+        return _execute_body(ops, maxheap, state, ReversedComparator)
     try:
-        with deadline(3.0):
+        patient(attempt, 5.0, long_budget=30.0)
+    except Expired:
+        state["trace"].append({"op": "raise", "exc": "watchdog: operation did not terminate"})
+    except MachineryError:
+        raise
+    except Exception as ex:  # the code under test raised: a recorded event, judged by the specification
+        state["trace"].append({"op": "raise", "exc": "%s: %s" % (type(ex).__name__, str(ex)[:200])})
+    return state["trace"], state["diverged"]
+
+
+def _execute_body(ops, maxheap, state, ReversedComparator):
+    heap, nodes, live, trace = state["heap"], state["nodes"], state["live"], state["trace"]
+    next_id = 1
+    if True:
+        if True:
             for o in ops:
                 op = o["op"]
                 if op in ("dec", "rem", "baddec") and o["id"] not in live:
                     # the heap legally popped another one of several equal minima than the generated behaviour
                     # assumed: the target is gone, the rest of the behaviour does not apply to this execution
-                    diverged = True
+                    state["diverged"] = True
                     break
                 if op == "push":
                     it = Item(next_id, o["key"])
@@ -105,7 +120,7 @@ def execute(ops, maxheap, follow=None):
                     if op == "pop":
                         live.discard(nid)
                     if "id" in o and o["id"] != nid:
-                        diverged = True
+                        state["diverged"] = True
                         break
                 elif op == "dec":
                     node = nodes[o["id"]]
@@ -132,13 +147,6 @@ def execute(ops, maxheap, follow=None):
                                   "truth": bool(heap)})
                 else:
                     raise MachineryError("unknown op %r" % (op,))
-    except Expired:
-        trace.append({"op": "raise", "exc": "watchdog: operation did not terminate"})
-    except MachineryError:
-        raise
-    except Exception as ex:  # the code under test raised: a recorded event, judged by the specification
-        trace.append({"op": "raise", "exc": "%s: %s" % (type(ex).__name__, str(ex)[:200])})
-    return trace, diverged
 
 
 def run_program_adaptive(r, length, keys, maxheap):
@@ -285,8 +293,9 @@ def helper_traces(r, n_cases):
         for maxheap, fn in ((False, smallest), (True, largest)):
             form = r.randint(0, 1)
             try:
-                with deadline(3.0):
-                    res = list(fn(seq, n=n)) if form == 0 or not seq else list(fn(*seq, n=n)) if len(seq) > 1 else list(fn(seq, n=n))
+                from harness.watchdog import patient
+                res = patient(lambda: list(fn(seq, n=n)) if form == 0 or not seq else list(fn(*seq, n=n)) if len(seq) > 1 else list(fn(seq, n=n)),
+                              3.0, long_budget=30.0)
             except Expired:
                 res = None
             except Exception as ex:
